@@ -242,6 +242,76 @@ def gen_views(rng):
     return {'kind': 'views', 'mode': 'gi', 'wavelength': WL_GI, 'fields': fs, 'shape': list(shape),
             'insert': {'out': _target(rng, 'gi', _shape(rng, 8) if rng.integers(0, 2) else shape), 'weight': int(rng.integers(-2, 4))}}
 
+def px_rank(c):
+    """equality-preserving integer code of every pixel-scale value occurring in the case (the model carries scales as integers
+    and only compares them for equality)"""
+    vals = []
+    for p in [c.get('a'), c.get('b'), c.get('wpx')] + [pl.get('px') for pl in c.get('planes', [])]:
+        if p is not None: vals += [float(x) for x in p]
+    u = sorted(set(vals))
+    return {v: i + 1 for i, v in enumerate(u)}
+
+def px_code(p, rank):
+    return None if p is None else [rank[float(x)] for x in p]
+
+def _near(rng, v):
+    """a value different from v but close to it: next float, a few ulps, 1e-9 relative, a few nanometres away, 10 ppm"""
+    t = int(rng.integers(0, 6))
+    if t == 0: return float(np.nextafter(v, np.inf))
+    if t == 1: return float(np.nextafter(v, -np.inf))
+    if t == 2: return v * (1 + 1e-9)
+    if t == 3: return v + 4e-9
+    if t == 4: return v * (1 + 8e-6)
+    return v * 2
+
+def gen_px_extreme(rng):
+    """pixel scales at physical magnitudes 1e-9 .. 1e3, equal / one ulp apart / nanometres apart / 10 ppm apart, per axis"""
+    u = float(10.0 ** rng.integers(-9, 4)) * float(rng.integers(1, 10))
+    a = [u, u] if rng.integers(0, 2) else [u, u * float(rng.integers(2, 5))]
+    t = int(rng.integers(0, 5))
+    if t == 0: b = list(a)
+    elif t == 1: b = [_near(rng, a[0]), a[1]]
+    elif t == 2: b = [a[0], _near(rng, a[1])]
+    elif t == 3: b = [_near(rng, a[0]), _near(rng, a[1])]
+    else: b = None
+    if rng.integers(0, 2): a, b = b, a
+    return {'kind': 'px', 'a': a, 'b': b, 'extreme': True}
+
+def gen_chain_extreme(rng):
+    """float chains in physical units: wavelength 1e-9 .. 1e-5 m, OPD maps of nanometre size (|opd| <= 1e-8 m, non-zero) mixed
+    with ordinary ones, amplitudes 1e-9 .. 1e3, pixel scales at physical magnitudes with near-equal conflicts"""
+    c = gen_chain(rng, 'cf')
+    wl = float(rng.choice([13.5e-9, 1e-9, 5e-7, 6.33e-7, 1e-5]))
+    c['wavelength'] = wl
+    for pl in c['planes']:
+        if pl['kind'] == 'tilt': continue          # lentil.Tilt has no amplitude / OPD of its own
+        cls = int(rng.integers(0, 4))
+        o = pl['opd']
+        mag = [8e-9, 3e-9, 2e-7, wl][cls]
+        if 'scalar' in o: o['scalar'] = float(o['scalar']) / 2 * mag
+        else:
+            o['v'] = [float(x) / 2 * mag for x in o['v']]
+            if cls < 2 and rng.integers(0, 2): o['v'] = [mag if x >= 0 else -mag for x in o['v']]      # flat nanometre piston
+        k = float(10.0 ** rng.integers(-9, 4))
+        a = pl['amp']
+        if 'scalar' in a: a['scalar'] = float(a['scalar']) * k
+        else: a['v'] = [float(x) * k for x in a['v']]
+    if 'insert' in c:
+        bound = _scale(c, 'intensity')
+        c['insert']['out']['re'] = [float(x) * bound for x in c['insert']['out']['re']]
+    # pixel scales in metres
+    u = float(10.0 ** rng.integers(-9, 1)) * float(rng.integers(1, 10))
+    base = [u, u] if rng.integers(0, 2) else [u, 2 * u]
+    c['wpx'] = base if rng.integers(0, 2) else None
+    conflict = rng.integers(0, 3) == 0
+    tp = [pl for pl in c['planes'] if pl['kind'] != 'tilt']
+    for pl in tp: pl['px'] = list(base) if rng.integers(0, 3) else None
+    if conflict and tp:
+        pl = tp[int(rng.integers(0, len(tp)))]
+        pl['px'] = [_near(rng, base[0]), base[1]] if rng.integers(0, 2) else [base[0], _near(rng, base[1])]
+    c['extreme'] = True
+    return c
+
 def gen_px(rng):
     def one():
         t = int(rng.integers(0, 3))
@@ -252,6 +322,9 @@ def generate(rng, tier):
     n = {'quick': 200, 'thorough': 4000, 'search': 1500}[tier]
     out = []
     for k in range(n):
+        # extremes stream: half of the failing-input search, 5 % of the other tiers
+        if (tier == 'search' and k % 2 == 0) or (tier != 'search' and k % 20 == 19):
+            out.append(gen_px_extreme(rng) if k % 3 == 0 else gen_chain_extreme(rng)); continue
         t = k % 10
         if t in (0, 1, 2, 3): out.append(gen_chain(rng, 'gi'))
         elif t in (4, 5): out.append(gen_chain(rng, 'cf'))
@@ -298,6 +371,7 @@ def tags(c):
         t.append('px:none' if not defined else 'px:conflict' if any(x != defined[0] for x in defined) else 'px:consistent')
     if k == 'views': t.append(f"views:n={len(c['fields'])}")
     if k == 'px': t.append(f"px:{'N' if c['a'] is None else 'P'}{'N' if c['b'] is None else 'P'}")
+    if c.get('extreme'): t.append('extreme:' + k)
     return t
 
 # ------------------------------------------------------------------------------------------ implementation
@@ -389,11 +463,11 @@ def attr_req(a, mode):
     if 'scalar' in a: return {'scalar': e(a['scalar'])}
     return {'shape': a['shape'], 'v': [e(x) for x in a['v']]}
 
-def plane_req(pl, mode):
+def plane_req(pl, mode, rank=None):
     L = plane_mask_layers(pl)
     if isinstance(L, int): mask = {'scalar': L}
     else: mask = {'shape': [int(s) for s in L[0].shape], 'layers': [[int(x) for x in lay.ravel()] for lay in L]}
-    r = {'kind': 'pupil' if pl['kind'] == 'pupil' else 'plane', 'amp': attr_req(pl['amp'], mode), 'opd': attr_req(pl['opd'], mode), 'mask': mask, 'px': pl['px']}
+    r = {'kind': 'pupil' if pl['kind'] == 'pupil' else 'plane', 'amp': attr_req(pl['amp'], mode), 'opd': attr_req(pl['opd'], mode), 'mask': mask, 'px': pl['px'] if rank is None else px_code(pl['px'], rank)}
     if pl['kind'] == 'pupil': r['fl'] = vlib.fbits(pl['fl'])
     return r
 
@@ -403,10 +477,11 @@ def arr_req(a, mode):
 
 def requests(c, io):
     k = c['kind']
-    if k == 'px': return [{'op': 'c07.pixelscale', 'a': c['a'], 'b': c['b']}]
+    rank = px_rank(c)
+    if k == 'px': return [{'op': 'c07.pixelscale', 'a': px_code(c['a'], rank), 'b': px_code(c['b'], rank)}]
     mode = c['mode']
     r = {'op': 'c07.run', 'mode': mode, 'wavelength': vlib.fbits(c['wavelength']), 'focal': vlib.fbits(math.inf),
-         'px': c.get('wpx'), 'planes': [plane_req(p, mode) for p in c.get('planes', [])]}
+         'px': px_code(c.get('wpx'), rank), 'planes': [plane_req(p, mode, rank) for p in c.get('planes', [])]}
     if k == 'views':
         r['data'] = [dict(arr_req(f, mode), off=f['off']) for f in c['fields']]
         r['shape'] = c['shape']
@@ -441,7 +516,7 @@ def _close(a, b, mode, scale=1.0):
     a = np.asarray(a); b = np.asarray(b)
     if a.shape != b.shape: return False
     if mode == 'gi': return bool(np.array_equal(a, b))
-    tol = 1e-9 * (1 + scale)
+    tol = 1e-9 * scale + 1e-300          # relative to the bound of the compared quantity: no absolute floor (nano-scale data)
     return bool(np.all(np.abs(a - b) <= tol))
 
 def _nsq(z):
@@ -455,7 +530,7 @@ def _scale(c, key='field'):
     f = 1.0
     for p in c.get('planes', []):
         a = p['amp']
-        f *= max(1.0, max(abs(x) for x in a['v']) if 'v' in a else abs(a['scalar']))
+        f *= max(abs(x) for x in a['v']) if 'v' in a else abs(a['scalar'])
         if p.get('mask') and 'layers' in p['mask']: f *= len(p['mask']['layers'])
     if c.get('fields'): f *= sum(max(max(abs(x) for x in g['re']), max(abs(x) for x in g['im'])) for g in c['fields'])
     if key == 'field': return f
@@ -474,13 +549,14 @@ def compare(c, io, mo):
         if m.get('ok'): return f"implementation raised {io['exc']} ({io.get('msg')}), model answered"
         return None if m.get('err') == io['exc'] else f"implementation raised {io['exc']}, model {m.get('err')}"
     if not m.get('ok'): return f"model refused ({m.get('err')}), implementation answered"
+    rank = px_rank(c)
     if k == 'px':
-        want = None if io['px'] is None else [int(x) for x in io['px']]
+        want = None if io['px'] is None else [rank.get(float(x)) for x in io['px']]
         return None if m['px'] == want else f"_mul_pixelscale: impl {io['px']} model {m['px']}"
     mode = c['mode']
     if vlib.bitsf(m['wavelength']) != io['wavelength']: return f"wavelength: impl {io['wavelength']} model {vlib.bitsf(m['wavelength'])}"
     if vlib.bitsf(m['focal']) != io['focal']: return f"focal length: impl {io['focal']} model {vlib.bitsf(m['focal'])}"
-    if (None if io['px'] is None else [int(x) for x in io['px']]) != m['px']: return f"pixelscale: impl {io['px']} model {m['px']}"
+    if (None if io['px'] is None else [rank.get(float(x)) for x in io['px']]) != m['px']: return f"pixelscale: impl {io['px']} model {m['px']}"
     if io['shape'] != m['shape']: return f"shape: impl {io['shape']} model {m['shape']}"
     box = _field_box(io['data'] + [dict(f, shape=f['shape']) for f in m['data']])
     ci = _canvas(io['data'], box, _np_arr)
